@@ -373,6 +373,7 @@ def _run(sim, case, r):
         return
     # packets
     pool = []
+    pristine_store = dict(store)          # every genuine certificate as issued, before any deviation is installed
     for hi, h in enumerate(hiers):
         for label, name, wire in build_packets(h, h.spec, store, policy):
             pool.append((hi, label, name, wire))
@@ -422,6 +423,29 @@ def _run(sim, case, r):
         if nontriv:
             keys.add((depth, label, hiers[hi].spec['link'] % (depth + 1), tuple(K.KEYS[k]['kind'] for k in hiers[hi].spec['keys']),
                       len(validators), same))
+    if case.get('heal') and not r.violations:
+        # the network recovers: lost / nacked / forged certificates are served genuinely from now on.  The verdict of the SAME
+        # validator instances follows (it depends on what is retrievable now, not on which fetches failed earlier)
+        healed = policy or any(store.get(k_) != w_ for k_, w_ in pristine_store.items())
+        policy.clear()
+        store.update(pristine_store)
+        for vi, (v, vh, sch) in enumerate(validators):
+            for hi, label, name, wire in pool:
+                if hiers.index(vh) != hi or not (label == 'good' or label.endswith('@cert')):
+                    continue
+                want = ref_validate(wire, sch, vh.anchor_name, vh.spec['keys'][0], store, lambda k: True)
+                got = _validate(sim, v, wire, r)
+                if got is None:
+                    return
+                hm = any(K.KEYS[k]['kind'] not in ('ec', 'rsa') for k in hiers[hi].spec['keys'])
+                if healed:
+                    classes.append(f'after-recovery:{label}:{want}')
+                    keys.add(('after-recovery', label, vh.spec['depth'], vh.spec['deviation']))
+                if got != want and not (hm and want and not got):
+                    kind = 'accepts-invalid-chain' if got else 'rejects-valid-chain'
+                    r.bad(f'C14/{kind}/after-recovery/{label}', f'validator {vi} after the certificates became retrievable again: '
+                          f'got {got} want {want}; deviation {vh.spec["deviation"]} at link {vh.spec["link"]} depth {vh.spec["depth"]}')
+                    return
     if sim.receive_errors:
         r.bad(f'C14/receive-raised/{sim.receive_errors[0].split(":")[0]}', sim.receive_errors[0])
     r.key = sorted(map(str, keys)) if keys else None
@@ -542,9 +566,9 @@ def _case(draw):
     concurrent = draw(st.lists(st.tuples(st.integers(0, 2), st.integers(0, 7), st.integers(0, 7)).map(list), max_size=2))
     if draw(st.booleans()):
         concurrent = [[0, 0, 0]] + concurrent      # twice the good packet of the first hierarchy, before anything is cached
-    return {'hiers': hiers, 'validators': validators, 'order': order, 'concurrent': concurrent}
+    return {'hiers': hiers, 'validators': validators, 'order': order, 'concurrent': concurrent, 'heal': draw(st.booleans())}
 
 
 SUBCHECKS = {
-    'histories': SubCheck(run_case, strategy=lambda tier: _case(), examples={'quick': 300, 'thorough': 8000}),
+    'histories': SubCheck(run_case, strategy=lambda tier: _case(), examples={'quick': 500, 'thorough': 10000}),
 }
